@@ -423,6 +423,13 @@ func (l *Lexer) readRawString() string {
 				result.WriteByte('`')
 				continue
 			}
+			if nextChar == '\\' {
+				// an escaped backslash is kept as it is; its second half must not be
+				// read as the start of another escape (`a\\` ends at the backtick)
+				l.ReadChar()
+				result.WriteString("\\\\")
+				continue
+			}
 		}
 		if l.CurrentChar == '`' {
 			break
